@@ -146,7 +146,9 @@ def check_C03(rep, tier):
     rep.cov["rule"] = ("TLC enumerates rule lists (all single rules over a 57-rule alphabet, ordered pairs, in either or both "
                        "lists) x item link states x referenced-step states; each is run through the real rule engine "
                        "(verif::apply_rules) and the verdict must EQUAL the specification's.  Seeded random scenarios "
-                       "beyond the bounds are validated step by step as traces.  Non-trivial = the specification "
+                       "beyond the bounds are validated step by step as traces.  A second instance (MC_C03P over Verify.tla) "
+                       "covers the pipeline: which items have a link when a step's / an inspection's rules are processed (a MATCH "
+                       "naming an inspection, a later step, the step itself, nothing).  Non-trivial = the specification "
                        "rejects, or at least one rule consumes a proper, non-empty part of the queue.")
     allow = {}
     devs = {}
@@ -201,6 +203,13 @@ def check_C03(rep, tier):
     with open(trace) as f:
         rep.sample({"trace_prefix": [json.loads(x) for x in f.read().split("\n")[:3] if x]})
     os.remove(trace)
+    # C03 inside the pipeline: which links exist when an item's rules are processed (MC_C03P over Verify.tla)
+    ev0, tr0 = rep.cov["evaluations"], rep.cov["traces_validated_against_impl"]
+    vr = VerifyRun(rep, "C03", tag="C03P")
+    vr.tlc("MC_C03P", f"MC_C03P_{tier}.cfg", ["StepRules", "RunInspection", "InspectRules", "Finish"])
+    vr.replay(["ed25519"], trace_runs=200)
+    vr.sh.cleanup()
+    rep.cov["pipeline_scenarios"] = rep.cov["evaluations"] - ev0
     rep.assumptions += ["paths are normalised and relative, patterns use the portable syntax (* ? literals); the only uninterpretable pattern exercised is '[' in DISALLOW",
                         "glob::Pattern with default options is trusted as the fnmatch implementation",
                         "digests are compared as whole algorithm->value maps; sha256 only"]
